@@ -313,7 +313,7 @@ def floors(tier):
     k = 1 if tier == "quick" else 6
     return {
         "evals": 1500 * k,
-        "distinct": 100 * k,
+        "distinct": 80 * k,
         "classes": {
             "snapshot": 700 * k,
             "order:compared": 500 * k,
@@ -326,12 +326,12 @@ def floors(tier):
 
 
 def plan(tier, seed):
-    # fork() costs 0.1-0.4 s in this sandbox: the number of forks (baselines + histories + reductions) is the budget
+    # fork() costs 0.1-0.8 s in this sandbox: one fork per history is the budget, reductions only on a mismatch
     if tier == "quick":
-        nhist, parts, nfac = 14, 8, 12
+        nhist, parts, nfac = 24, 6, 10
     else:
-        nhist, parts, nfac = 60, 15, 30
-    out = [{"name": "directed"}, {"name": "timeouts"}, {"name": "hidden", "seed": seed, "n": 8 if tier == "quick" else 60}]
+        nhist, parts, nfac = 120, 15, 25
+    out = [{"name": "directed"}, {"name": "timeouts"}, {"name": "hidden", "seed": seed, "n": 6 if tier == "quick" else 50}]
     for p in range(parts):
         out.append({"name": "random", "seed": seed, "part": p, "nhist": nhist, "nfactory": nfac})
     return out
@@ -469,31 +469,66 @@ def _chop(test, k):
     return t
 
 
-def _last_fn(test):
+def _fn_of_line(line):
+    m = _CALL.findall(line)
+    return TAGS.get(m[-1], m[-1]) if m else None
+
+
+def _last_fn(test, upto=None):
     from vlib import exech as H
 
-    for ln in reversed(H.test_lines(test)):
-        m = _CALL.findall(ln)
-        if m:
-            return TAGS.get(m[-1], m[-1])
+    lines = H.test_lines(test)
+    if upto is not None:
+        lines = lines[: upto + 1]
+    for ln in reversed(lines):
+        f = _fn_of_line(ln)
+        if f:
+            return f
     return "no-sut-call"
 
 
-def _mismatch(runner, prefix_tests, victim, baseline):
-    """Run prefix + victim in a fresh fork; is the victim's summary different from its baseline?"""
-    res = runner.seq(list(prefix_tests) + [victim])
-    got = _trim(res[-1]["summary"])
-    return got != baseline, got
+_LINE_FN: dict = {}
 
 
-def _n_sut_calls(test):
+def _line_fn_map():
+    """SUT source line -> name of the enclosing top-level function (for attributing line differences)."""
+    if not _LINE_FN:
+        import ast
+
+        for node in ast.parse(SUT_FX).body:
+            if isinstance(node, ast.FunctionDef):
+                for ln in range(node.lineno, node.end_lineno + 1):
+                    _LINE_FN[ln] = node.name
+    return _LINE_FN
+
+
+def _victim_fn(test, got, ref):
+    """API of the statement at which the two summaries first differ."""
+    pos = []
+    for k in ("exc", "assertions"):
+        a, b = got.get(k, {}), ref.get(k, {})
+        pos += [int(p) for p in set(a) | set(b) if a.get(p) != b.get(p)]
+    if pos:
+        return _last_fn(test, min(pos))
+    diff = sorted(set(got.get("lines", [])) ^ set(ref.get("lines", [])))
+    for ln in diff:
+        fn = _line_fn_map().get(ln)
+        if fn:
+            return TAGS.get(fn, fn)
+    return _last_fn(test)
+
+
+def _executed_calls(test, summary):
+    """Number of SUT-calling statements of `test` that were executed according to its summary."""
     from vlib import exech as H
 
-    return sum(len(_CALL.findall(ln)) for ln in H.test_lines(test))
+    lines = H.test_lines(test)
+    stop = min([int(p) for p in summary.get("exc", {})] or [len(lines) - 1])
+    return sum(1 for ln in lines[: stop + 1] if _fn_of_line(ln))
 
 
 def _bisect(lo, hi, bad):
-    """Smallest k in (lo, hi] with bad(k), given bad(hi) and not bad(lo) (monotone assumption; verified by caller)."""
+    """Smallest k in (lo, hi] with bad(k), given bad(hi) and (assumed) not bad(lo)."""
     while hi - lo > 1:
         mid = (lo + hi) // 2
         if bad(mid):
@@ -503,109 +538,240 @@ def _bisect(lo, hi, bad):
     return hi
 
 
-_MIN_CACHE: dict = {}
-
-
-def _minimise(runner, seq, i, baselines_by_id):
-    """Reduce a reproducible mismatch of seq[i] to (culprit API, victim API, differing component, case)."""
+def _executed_tags(test, summary):
+    """Tags of the SUT calls of `test` that were executed according to its summary (up to the first exception)."""
     from vlib import exech as H
 
-    victim = seq[i]
-    base = baselines_by_id[id(victim)]
-    # 1. shortest prefix of the history that still disturbs the victim -> its last test is the culprit
-    p = _bisect(0, i, lambda k: _mismatch(runner, seq[:k], victim, base)[0]) if i > 1 else 1
-    culprit = seq[p - 1]
-    ck = (id(culprit), id(victim))
-    if ck in _MIN_CACHE:
-        return _MIN_CACHE[ck]
-    bad, got = _mismatch(runner, [culprit], victim, base)
-    if not bad:
-        _, got = _mismatch(runner, seq[:i], victim, base)
-        return ("several-predecessors", _last_fn(victim), _first_diff(got, base),
-                {"prefix": [H.test_lines(t) for t in seq[:i]], "victim": H.test_lines(victim), "alone": base, "after": got})
-    # 2. shortest prefix of the culprit test that still disturbs the victim
-    cmin = culprit
-    if _n_sut_calls(culprit) > 1:
-        k = _bisect(0, culprit.size(), lambda k: _mismatch(runner, [_chop(culprit, k)], victim, base)[0])
-        cmin = _chop(culprit, k)
-    # 3. shortest prefix of the victim that is still disturbed
-    vmin, vbase, vgot = victim, base, got
-    if _n_sut_calls(victim) > 1:
-        memo = {}
-
-        def bad_v(k):
-            v = _chop(victim, k)
-            b = _trim(runner.alone(v)["summary"])
-            bad_, g = _mismatch(runner, [cmin], v, b)
-            memo[k] = (v, b, g)
-            return bad_
-
-        k = _bisect(0, victim.size(), bad_v)
-        if k in memo:
-            vmin, vbase, vgot = memo[k]
-    comp = _first_diff(vgot, vbase)
-    case = {"culprit": H.test_lines(cmin), "victim": H.test_lines(vmin), "alone": vbase, "after_culprit": vgot}
-    out = (_last_fn(cmin), _last_fn(vmin), comp, case)
-    _MIN_CACHE[ck] = out
+    lines = H.test_lines(test)
+    stop = min([int(p) for p in summary.get("exc", {})] or [len(lines) - 1])
+    out = []
+    for ln in lines[: stop + 1]:
+        f = _fn_of_line(ln)
+        if f:
+            out.append(f)
     return out
 
 
-def _compare_sequence(ctx, runner, seq, baselines_by_id, label):
-    """Oracle 1 for every execution of the history, oracle 2 for every test of it."""
-    from vlib import exech as H
+class HistorySet:
+    """Runs histories (one forked process each) and decides both oracles.
 
-    res = runner.seq(seq)
-    lines_of = [H.test_lines(t) for t in seq]
-    for r, lines in zip(res, lines_of):
-        runner.judge_leak(r, lines)
-    bad_idx = [i for i, (t, r) in enumerate(zip(seq, res)) if "execute-raised" not in r["summary"]
-               and _trim(r["summary"]) != baselines_by_id[id(t)]]
-    ctx.ok(n=len(seq), cls="order:compared", distinct=[label, lines_of])
-    if not bad_idx:
-        return
-    # must reproduce on an identical second run (otherwise load noise)
-    res2 = runner.seq(seq)
-    seen_pairs = set()
-    for i in bad_idx:
-        if _trim(res2[i]["summary"]) != _trim(res[i]["summary"]):
+    Oracle 2 without a separate baseline run: the first test of a history *is* that test alone in a fresh
+    process.  Every other occurrence of the same test (any history, any position) must have the same summary.
+    A disturbed occurrence is attributed from the data (APIs executed before it, minus APIs that also ran before an
+    undisturbed execution of the same victim API) and confirmed by one fork per (culprit API, victim API) pair with
+    the single-call directed tests of those APIs.
+    """
+
+    MAX_FALLBACKS = 3
+
+    def __init__(self, ctx, runner, label, directed_by_tag):
+        self.ctx, self.runner, self.label = ctx, runner, label
+        self.by_tag = directed_by_tag  # API tag -> single-call directed test
+        self.hist: list[list] = []
+        self.res: list[list] = []
+        self.tag_cache: dict = {}
+        self.reported: set = set()
+        self.confirmed: set = set()  # (culprit tag, victim tag)
+        self.fallbacks = 0
+        self.refs: dict = {}
+
+    def run(self, seq, timeout=180.0):
+        from vlib import exech as H
+
+        res = self.runner.seq(seq, timeout)
+        lines_of = [H.test_lines(t) for t in seq]
+        for r, lines in zip(res, lines_of):
+            self.runner.judge_leak(r, lines)
+        self.hist.append(list(seq))
+        self.res.append([None if "execute-raised" in r["summary"] else _trim(r["summary"]) for r in res])
+        self.ctx.ok(0, distinct=[self.label, lines_of])
+        return res
+
+    def _alone(self, t):
+        """Stand-alone summary in a fresh process; a timeout there is load noise -> retried."""
+        for _ in range(3):
+            s = self.runner.alone(t)["summary"]
+            if "execute-raised" not in s and not s["timeout"]:
+                return _trim(s)
+        return None
+
+    def _after(self, prefix, victim):
+        """Victim's summary after `prefix` in a fresh process; None if load noise (timeouts) persists."""
+        for _ in range(3):
+            r = self.runner.seq(list(prefix) + [victim])
+            if any("execute-raised" in x["summary"] or x["summary"]["timeout"] for x in r):
+                continue
+            return _trim(r[-1]["summary"])
+        self.ctx.anomaly("reduction-run-timed-out-under-load")
+        return None
+
+    # -- oracle 2 ---------------------------------------------------------------------
+    def judge(self):
+        ctx = self.ctx
+        occ: dict[int, list] = {}
+        tests = {}
+        before: list[list] = []  # before[h][pos] = set of API tags executed in the process before position pos
+        for h, (seq, res) in enumerate(zip(self.hist, self.res)):
+            acc: set = set()
+            row = []
+            for pos, (t, s) in enumerate(zip(seq, res)):
+                row.append(set(acc))
+                if s is None:
+                    continue
+                acc |= set(_executed_tags(t, s)) if not s["timeout"] else {TAGS.get(f, f) for f in _tags_of_test(t)}
+                if s["timeout"]:
+                    # no function of this module loops: a timeout here is a starved thread on a loaded machine
+                    ctx.anomaly("execution-timeout-under-load")
+                    continue
+                occ.setdefault(id(t), []).append((h, pos, s))
+                tests[id(t)] = t
+            before.append(row)
+        # before_single[h][pos]: APIs executed before pos by *single-call* tests only (a multi-statement test can use an
+        # API harmlessly, e.g. close a stream it replaced itself, so it must not exonerate that API)
+        before_single: list[list] = []
+        for h, (seq, res) in enumerate(zip(self.hist, self.res)):
+            acc = set()
+            row = []
+            for t, s in zip(seq, res):
+                row.append(set(acc))
+                if s is not None and not s["timeout"] and _single_call_fn(t):
+                    acc |= set(_executed_tags(t, s))
+            before_single.append(row)
+        exon: dict[str, set] = {}  # victim API -> APIs that ran (in single-call tests) before an undisturbed execution of it
+        bad_all = []
+        for tid, lst in occ.items():
+            t = tests[tid]
+            firsts = [s for (_h, pos, s) in lst if pos == 0]
+            if firsts and any(s != firsts[0] for s in firsts):
+                ctx.anomaly("nondeterministic-when-alone:" + _first_diff(firsts[0], next(s for s in firsts if s != firsts[0])))
+                continue
+            if firsts:
+                ref = firsts[0]
+            elif all(s == lst[0][2] for s in lst):
+                ref = lst[0][2]
+                ctx.count("tests_compared_across_histories_only", 1)
+            else:
+                ref = self._alone(t)
+                if ref is None:
+                    ctx.anomaly("baseline-timeout")
+                    continue
+            self.refs[tid] = ref
+            ctx.ok(n=len(lst), cls="order:compared")
+            for h, pos, s in lst:
+                if s == ref:
+                    for vt in set(_executed_tags(t, s)):
+                        exon.setdefault(vt, set()).update(before_single[h][pos])
+                else:
+                    bad_all.append((t, ref, h, pos, s))
+        # rank suspects per victim API by how often they precede a disturbed execution
+        freq: dict[str, dict] = {}
+        for t, ref, h, pos, s in bad_all:
+            vt = _victim_fn(t, s, ref)
+            for c in before[h][pos] - exon.get(vt, set()):
+                freq.setdefault(vt, {}).setdefault(c, 0)
+                freq[vt][c] += 1
+        for t, ref, h, pos, s in sorted(bad_all, key=lambda o: len(before[o[2]][o[3]])):
+            self._explain(t, ref, h, pos, s, before[h][pos], exon, freq)
+
+    def _explain(self, victim, ref, h, pos, s, tags_before, exon, freq):
+        from vlib import exech as H
+
+        ctx = self.ctx
+        vt, comp = _victim_fn(victim, s, ref), _first_diff(s, ref)
+        suspects = sorted(tags_before - exon.get(vt, set()), key=lambda c: (-freq.get(vt, {}).get(c, 0), c))
+        if any((c, vt) in self.confirmed for c in tags_before):
+            ctx.count("order_mismatches_explained_by_confirmed_mechanism")
+            return
+        for ctag in suspects:
+            found = self._confirm_tags(ctag, vt)
+            if found:
+                comp2, case = found
+                self.confirmed.add((ctag, vt))
+                key = f"order-dependence:{ctag}->{vt}:{comp2}"
+                if key not in self.reported:
+                    self.reported.add(key)
+                    case["observed_in_history"] = {"victim": H.test_lines(victim)[:12], "position": pos, "apis_before": sorted(tags_before)}
+                    ctx.witness(
+                        key,
+                        f"result of a test using {vt} differs ({comp2}) when a test using {ctag} ran before it in the same process, "
+                        f"compared with running it first in a fresh process",
+                        case,
+                    )
+                return
+        # not attributable from the data: reduce the concrete history (bounded number of times)
+        key = f"order-dependence:unattributed->{vt}:{comp}"
+        if key in self.reported:
+            ctx.count("order_mismatches_same_mechanism")
+            return
+        if self.fallbacks >= self.MAX_FALLBACKS:
+            ctx.anomaly("order-mismatch-not-reduced")
+            ctx.inconclusive_because(f"more than {self.MAX_FALLBACKS} order mismatches could not be attributed from the data (victim API {vt}, {comp})")
+            return
+        self.fallbacks += 1
+        preds = self.hist[h][:pos]
+
+        def bad_prefix(k):
+            got = self._after(preds[:k], victim)
+            return got is not None and got != ref
+
+        if not bad_prefix(pos):
             ctx.anomaly("order-mismatch-not-reproducible")
-            continue
-        # the stand-alone result must be stable too
-        again = _trim(runner.alone(seq[i])["summary"]) if id(seq[i]) not in runner.rechecked else baselines_by_id[id(seq[i])]
-        runner.rechecked.add(id(seq[i]))
-        if again != baselines_by_id[id(seq[i])]:
-            ctx.anomaly("nondeterministic-when-alone:" + _first_diff(again, baselines_by_id[id(seq[i])]))
-            continue
-        cul, vic, comp, case = _minimise(runner, seq, i, baselines_by_id)
-        if (cul, vic, comp) in seen_pairs:
-            ctx.count("order_mismatches_same_mechanism_in_history")
-            continue
-        seen_pairs.add((cul, vic, comp))
-        ctx.witness(
-            f"order-dependence:{cul}->{vic}:{comp}",
-            f"result of a test using {vic} differs ({comp}) when a test using {cul} ran before it in the same process, "
-            f"compared with running it alone in a fresh process",
-            case,
-        )
+            return
+        k = _bisect(0, pos, bad_prefix) if pos > 1 else 1
+        culprit = preds[k - 1]
+        got = self._after([culprit], victim)
+        self.reported.add(key)
+        if got is not None and got != ref:
+            cmin = culprit
+            if _n_calls(culprit) > 1:
+                def bad_c(j):
+                    g = self._after([_chop(culprit, j)], victim)
+                    return g is not None and g != ref
+
+                cmin = _chop(culprit, _bisect(0, culprit.size(), bad_c))
+            key = f"order-dependence:{_last_fn(cmin)}->{_victim_fn(victim, got, ref)}:{_first_diff(got, ref)}"
+            if key not in self.reported:
+                self.reported.add(key)
+                ctx.witness(key, "result differs from the stand-alone result after one predecessor test (reduced from a concrete history; "
+                            "the culprit API is the last call of the shortest disturbing prefix of that test)",
+                            {"culprit": H.test_lines(cmin), "victim": H.test_lines(victim), "first_in_fresh_process": ref, "after_culprit": got})
+        else:
+            ctx.witness(f"order-dependence:several-predecessors->{vt}:{comp}", "result differs from the stand-alone result only after several predecessor tests",
+                        {"prefix": [H.test_lines(t) for t in preds[:k]], "victim": H.test_lines(victim), "first_in_fresh_process": ref, "after": s})
+
+    def _confirm_tags(self, ctag, vt):
+        """[directed test of culprit API, directed test of victim API] in a fresh process."""
+        from vlib import exech as H
+
+        ck = (ctag, vt)
+        if ck in self.tag_cache:
+            return self.tag_cache[ck]
+        out = None
+        c, v = self.by_tag.get(ctag), self.by_tag.get(vt)
+        if c is not None and v is not None:
+            ref = self.refs.get(id(v)) or self._alone(v)
+            if ref is not None:
+                self.refs[id(v)] = ref
+                got = self._after([c], v)
+                if got is not None and got != ref:
+                    out = (_first_diff(got, ref), {"culprit": H.test_lines(c), "victim": H.test_lines(v), "first_in_fresh_process": ref, "after_culprit": got})
+        self.tag_cache[ck] = out
+        return out
 
 
-def _baselines(ctx, runner, tests):
-    """Stand-alone summaries: one freshly forked process per test."""
+def _tags_of_test(test):
     from vlib import exech as H
 
-    keep, base = [], {}
+    return [f for ln in H.test_lines(test) for f in [_fn_of_line(ln)] if f]
+
+
+def _by_tag(tests):
+    out = {}
     for t in tests:
-        a = runner.alone(t)
-        runner.judge_leak(a, H.test_lines(t))
-        if "execute-raised" in a["summary"]:
-            continue
-        sa = _trim(a["summary"])
-        if sa["timeout"]:
-            ctx.anomaly("baseline-timeout")
-            continue
-        keep.append(t)
-        base[id(t)] = sa
-    return keep, base
+        fn = _single_call_fn(t)
+        if fn:
+            out.setdefault(TAGS.get(fn, fn), t)
+    return out
 
 
 def _directed_tests(alias, args=(1, 5)):
@@ -632,6 +798,17 @@ def _directed_tests(alias, args=(1, 5)):
 OBSERVERS = ["plain", "pr", "perr", "log_emit", "log_query", "draw", "draw_many", "own_random", "boom"]
 
 
+def _single_call_fn(test):
+    from vlib import exech as H
+
+    ls = H.test_lines(test)
+    if len(ls) == 2 and ls[0].startswith("var_0 = "):
+        m = _CALL.findall(ls[1])
+        if m:
+            return m[0]
+    return None
+
+
 def run_chunk(spec, ctx):
     from vlib import exech as H
 
@@ -647,7 +824,7 @@ def run_chunk(spec, ctx):
         pool += ftests
         seq = []
         for _ in range(spec["n"]):
-            seq = [rng.choice(pool) for _ in range(rng.randint(8, 20))]
+            seq = [rng.choice(pool) for _ in range(rng.randint(10, 24))]
             res = runner.seq(seq)
             for t, r in zip(seq, res):
                 runner.judge_leak(r, H.test_lines(t), exempt=True)
@@ -660,24 +837,25 @@ def run_chunk(spec, ctx):
 
     if name == "timeouts":
         runner = Runner(ctx, sp, FX, max_timeout=1, per_stmt=1)
-        plain_runner = Runner(ctx, sp, FX)
         obs = [H.mk_test([f"var_0 = {alias}.{fn}(5)"]) for fn in ("pr", "draw", "log_query", "plain")]
-        keep, base = _baselines(ctx, plain_runner, obs)
+        base = {}
+        for t in obs:
+            base[id(t)] = _trim(Runner(ctx, sp, FX).alone(t)["summary"])
         for spin in ("_spin", "_spin_print"):
             loop = H.mk_test([f"var_0 = {alias}.{spin}(1)"])
-            seq = [loop] + keep + [loop]
+            seq = [loop] + obs + [loop]
             res = runner.seq(seq, timeout=90)
             lines_of = [H.test_lines(t) for t in seq]
             for r, lines in zip(res, lines_of):
                 runner.judge_leak(r, lines)
             if not res[0]["summary"].get("timeout"):
                 ctx.anomaly("loop-not-reported-as-timeout")  # C32's business
-            for t, r in zip(keep, res[1:]):
-                got = _trim(r["summary"])
+            for i, t in enumerate(obs):
+                got = _trim(res[1 + i]["summary"])
                 ctx.ok(cls="order:compared", distinct=["timeouts", spin, H.test_lines(t)])
                 if got != base[id(t)]:
                     res2 = runner.seq(seq, timeout=90)
-                    got2 = _trim(res2[1 + keep.index(t)]["summary"])
+                    got2 = _trim(res2[1 + i]["summary"])
                     if got2 != got:
                         ctx.anomaly("order-mismatch-not-reproducible")
                     elif got["timeout"] and not base[id(t)]["timeout"]:
@@ -691,25 +869,27 @@ def run_chunk(spec, ctx):
     runner = Runner(ctx, sp, FX)
     if name == "directed":
         tests = _directed_tests(alias)
-        keep, base = _baselines(ctx, runner, tests)
         single = {}
-        for t in keep:
-            ls = H.test_lines(t)
-            if len(ls) == 2 and ls[0] == "var_0 = 5":
-                m = _CALL.findall(ls[1])
-                if m:
-                    single[m[0]] = t
-        observers = [single[f] for f in OBSERVERS if f in single]
-        # every effect (twice in a row), then every observer, in one process
-        for cfn, c in single.items():
-            _compare_sequence(ctx, runner, [c, c] + observers, base, "effect-then-observers")
-        # the remaining directed tests: each twice, then the observers
-        rest = [t for t in keep if t not in single.values()]
-        for i in range(0, len(rest), 6):
-            grp = rest[i:i + 6]
-            _compare_sequence(ctx, runner, [t for t in grp for _ in (0, 1)] + observers, base, "repeat")
-        if "log_disable" in single and "log_query" in single:
-            ctx.sample({"module": FX, "history": [H.test_lines(single["log_disable"]), H.test_lines(single["log_query"])]})
+        for t in tests:
+            fn = _single_call_fn(t)
+            if fn and H.test_lines(t)[0] == "var_0 = 5":
+                single[fn] = t
+        observers = [single[f] for f in OBSERVERS]
+        hs = HistorySet(ctx, runner, "directed", _by_tag([t for t in tests if H.test_lines(t)[0] == "var_0 = 5"]))
+        # every effect first in a fresh process (= its stand-alone result), again right after itself, then the same
+        # function with another argument, then every observer
+        other = {}
+        for t in tests:
+            fn = _single_call_fn(t)
+            if fn and H.test_lines(t)[0] != "var_0 = 5":
+                other[fn] = t
+        for t in tests:
+            fn = _single_call_fn(t)
+            if fn and fn in other and other[fn] is t:
+                continue
+            hs.run([t, t] + ([other[fn]] if fn in other else []) + observers)
+        hs.judge()
+        ctx.sample({"module": FX, "history": [H.test_lines(single["log_disable"]), H.test_lines(single["log_query"])]})
         ctx.note("forks_directed", runner.forks)
         return
 
@@ -718,15 +898,18 @@ def run_chunk(spec, ctx):
     with sp.instrumentation_tracer.temporarily_disable():
         ftests, _ = H.factory_tests(FX, spec["nfactory"], spec["seed"] * 131 + spec["part"])
     pool = _directed_tests(alias, args=(rng.choice([1, 2, 5, 7]),)) + ftests
-    keep, base = _baselines(ctx, runner, pool)
     fset = {id(t) for t in ftests}
-    ctx.note("factory_tests_kept", sum(1 for t in keep if id(t) in fset))
     if ftests:
         ctx.sample({"module": FX, "factory_test": H.test_lines(ftests[0])[:10]})
+    hs = HistorySet(ctx, runner, "history", _by_tag(pool))
+    firsts = list(pool)
+    rng.shuffle(firsts)
     for h in range(spec["nhist"]):
-        # short histories keep a sticky leak of one test from masking everything else; long ones mix more
-        k = rng.choice([4, 6, 10, 16, 30])
-        seq = [rng.choice(keep) for _ in range(k)]
+        # every pool test gets to be first in a fresh process; the rest of the history is random
+        first = firsts[h % len(firsts)]
+        k = rng.choice([6, 12, 20, 30])
+        seq = [first] + [rng.choice(pool) for _ in range(k)]
         ctx.cls("factory-test", sum(1 for t in seq if id(t) in fset))
-        _compare_sequence(ctx, runner, seq, base, "history")
+        hs.run(seq)
+    hs.judge()
     ctx.note("forks_random", runner.forks)
